@@ -712,8 +712,16 @@ class CSSParser:
                 _s2 += nth_parts.group('b')
             else:
                 _s2 = '0'
-            s1 = int(_s1, 10)
-            s2 = int(_s2, 10)
+            try:
+                s1 = int(_s1, 10)
+                s2 = int(_s2, 10)
+            except ValueError:
+                # The interpreter refuses to convert extremely long digit strings
+                raise SelectorSyntaxError(
+                    f"The integers of '{mdict['name']}' at position {m.start(0)} are too large",
+                    self.pattern,
+                    m.start(0)
+                ) from None
 
         pseudo_sel = mdict['name']
         if postfix == '_child':
